@@ -131,7 +131,10 @@ impl Projector {
             return items;
         }
 
-        if iter.child().map(|n| n.is_leaf()).unwrap_or(false) {
+        if iter.inlines().is_empty() && iter.child().is_some() {
+            // an item without text of its own starts with its first block (code, quote, rule, table)
+            items.push(vec![]);
+        } else if iter.child().map(|n| n.is_leaf()).unwrap_or(false) {
             items.push(vec![GraphBlock::Para(iter.inlines())]);
         } else {
             items.push(vec![GraphBlock::Plain(iter.inlines())]);
@@ -144,6 +147,11 @@ impl Projector {
                     .iter()
                     .for_each(|item| items.last_mut().unwrap().push(item.clone()))
             });
+
+        // nothing to render (no text, and e.g. only an empty quote inside): no item
+        if items.last().map(|item| item.is_empty()).unwrap_or(false) {
+            items.pop();
+        }
 
         iter.next()
             .map(|next| self.with(self.header_level).project_list_item(next))
